@@ -234,6 +234,17 @@ def record_analysis(spec):
                     s1, s2 = float(np.sum(w)), float(np.sum(w * w))
                     ev.append({"t": "sine", "psq": qc(float(r.ps[0]) / (A * A / 2)), "bound": qc(8 * 10 ** (-psll / 20)) + 4,
                                "enbwq": qc(float(r.ENBW[0]) * Lr / fs, 2 ** 16), "enbwx": qc(Lr * s2 / (s1 * s1), 2 ** 16), "mode": str(mode)})
+            elif kind == "single":
+                # single-bin analyses: the error bars must use the number of segments actually averaged
+                import speckit
+                rngs = np.random.default_rng(spec["seed"] + 23)
+                for _ in range(var[1]):
+                    L = int(rngs.choice([100, 333, 1000, spec["N"] // 3, spec["N"] // 2 + 1]))
+                    ol = float(rngs.choice([0.0, 0.0, 0.5, 0.3]))
+                    fq = float(rngs.uniform(0.05, 0.45)) * fs
+                    r = speckit.compute_single_bin(np.vstack([x, y]), fs, fq, L=L, olap=ol, win="hann", order=spec["order"], backend=spec["backend"])
+                    ev.append({"t": "single", "n": int(r.navg[0]), "K": int(r.K[0]), "nD": int(len(r.D[0])), "exx": qc(float(r.Gxx_error[0]), 4096),
+                               "dxx": qc(float(r.Gxx_dev[0] / r.Gxx[0]), 4096) if r.Gxx[0] else 0})
             elif kind == "gain":
                 g = var[1]
                 r = analyze(np.vstack([x, g * x]), fs, spec)
